@@ -164,6 +164,33 @@ def judgeLine (line : String) : String :=
     | _, _ => "violates unparsable-observation"
   | _ => "bad-op"
 
+/-- body the scripted peer of the `late` lines serves: byte i = 'a' + i % 23 -/
+def lateBody (n : Nat) : List UInt8 := (List.range n).map (fun i => UInt8.ofNat (97 + i % 23))
+
+/-- `late <deadlineMs|-> <replyAtMs> <bodyBytes> <pig|sep> || <observed>` with ACK_TIMEOUT 2000 ms, MAX_RETRANSMIT 4:
+    the response to the copy sent last gets back at replyAtMs.  If that is before the attempts are exhausted
+    ((MAX_RETRANSMIT + 1) × ACK_TIMEOUT after the first copy) and comfortably before the caller's deadline, the call must
+    succeed with exactly the body the peer served. -/
+def lateJudge (line : String) : String :=
+  match line.splitOn " || " with
+  | [inp, obs] =>
+    match words inp with
+    | ["late", dl, at_, n, _] =>
+      match at_.toNat?, n.toNat? with
+      | some at_, some n =>
+        let exhausted := (4 + 1) * 2000
+        let dlOK := match dl.toNat? with | some d => at_ + 2000 ≤ d | none => dl == "-"
+        if at_ < exhausted && dlOK then
+          let h := (lateBody n).foldl (fun h b => fnvMix h b.toUInt64) fnvInit
+          let exp := s!"ok {n} {hex64 h}"
+          if obs == exp then "ok"
+          else s!"violates the response got back {at_} ms after the first copy, before the attempts were exhausted ({exhausted} ms), but the call did not succeed with it: expected `{exp}`"
+        else if obs.startsWith "ok" && at_ ≥ exhausted then "violates a response after the attempts were exhausted produced a successful call"
+        else "ok"
+      | _, _ => "bad-op"
+    | _ => "bad-op"
+  | _ => "bad-op"
+
 end Driver.C06
 
 def main (args : List String) : IO UInt32 := do
@@ -172,6 +199,7 @@ def main (args : List String) : IO UInt32 := do
   match args with
   | ["model"] => Driver.forLines stdin fun l => stdout.putStrLn (Driver.C06.model l)
   | ["judge"] => Driver.forLines stdin fun l => stdout.putStrLn (Driver.C06.judgeLine l)
-  | _ => IO.eprintln "usage: drv_c06 model|judge"; return 2
+  | ["latejudge"] => Driver.forLines stdin fun l => stdout.putStrLn (Driver.C06.lateJudge l)
+  | _ => IO.eprintln "usage: drv_c06 model|judge|latejudge"; return 2
   stdout.flush
   return 0
